@@ -1213,6 +1213,14 @@ def r_prior_value_guard(prog, rep, with_consumer=False):
         r.check(ok, "ExternalCommand::providePriorValue|only-successful", "", "hasPriorResult is set for a prior value that is not a successful command result", h)
 
 
+def r_value_compare(prog, rep):
+    r = rep.rule("R-VALUE-COMPARE", "the engine decides 'unchanged' by comparing the encoded value vectors", floor=1)
+    f = prog.fn("BuildEngineImpl::taskIsComplete")
+    cmp_ = [n for n in f.nodes if n.get("k") == "call" and n.get("op") == "==" and "result.value" in expr_str(n)]
+    ok = len(cmp_) == 1 and "vector" in (cmp_[0].get("fn") or "") or (len(cmp_) == 1 and "std::operator==" in (cmp_[0].get("fn") or ""))
+    r.check(ok, "taskIsComplete|vector-equality", "", "unchanged-value test is %s" % [expr_str(c) for c in cmp_], f)
+
+
 def aggregate_init(prog, node, record_suffix):
     """{field name -> rendered initialiser} of the first aggregate initialiser under `node` for the given record.
     The extractor serialises the *semantic* form of an InitListExpr: one initialiser per field, in field order,
